@@ -61,7 +61,7 @@ class _Uuid:
         return uuid.UUID(int=self.rng.getrandbits(128), version=4)
 
 
-ID_SHAPES = ["uuid", "str", "digits", "digits0", "text"]
+ID_SHAPES = ["uuid", "str", "digits", "digits0", "text", "int"]
 
 
 def concrete_id(shape, c, rng):
@@ -73,7 +73,20 @@ def concrete_id(shape, c, rng):
         return "00" + str(rng.randrange(10**4)) + str(CALLERS.index(c))
     if shape == "text":
         return "id é  %s" % c
+    if shape == "int":
+        return rng.randrange(1, 10**6) * 10 + CALLERS.index(c)
     raise ValueError(shape)
+
+
+def twin_id(x):
+    """the id of the other JSON type with the same text: 7 <-> "7" (None if there is none)"""
+    if isinstance(x, bool):
+        return None
+    if isinstance(x, int):
+        return str(x)
+    if isinstance(x, str) and x.isdigit() and str(int(x)) == x:
+        return int(x)
+    return None
 
 
 PARAM_SHAPES = ["none", "empty", "flat", "nested", "meta"]
@@ -136,10 +149,17 @@ def run_schedule(sched, seed=0):
             shape = k.get("idshape", "str")
             if shape == "uuid":
                 ids[c] = str(predict())
+            elif shape.startswith("twin:"):
+                ids[c] = None      # resolved below
             else:
                 ids[c] = concrete_id(shape, c, rng)
             methods[c] = k.get("method", "tools/call")
             params[c] = concrete_params(k.get("params", "flat"))
+    for c in list(ids):
+        if ids[c] is None:
+            base = ids.get(callers[c]["idshape"].split(":")[1])
+            t = twin_id(base)
+            ids[c] = t if t is not None else "tw-%s" % c
     for c in callers:
         ids.setdefault(c, "never-%s" % c)
     other_id = "someone-else"
@@ -185,6 +205,10 @@ def run_schedule(sched, seed=0):
         k = s["k"]
         who = s.get("id", "other")
         rid = ids[who] if who in callers else other_id
+        if s.get("twin") in callers and who not in callers:
+            t = twin_id(ids[s["twin"]])
+            if t is not None and all(not (t == ids[c] and type(t) is type(ids[c])) for c in callers):
+                rid = t
         if k == "resp":
             pl = {"marker": n, "content": [{"type": "text", "text": "ré "}], "nil": None, "nested": {"x": [None, 1]}}
             if s.get("payload") == "scalarish":
@@ -273,7 +297,7 @@ def run_schedule(sched, seed=0):
             except TimeoutError:
                 ev("Complete", c=c, kind="timeout", n=0, ok=True)
             except CancelledError as e:
-                ev("Complete", c=c, kind="cancelled", n=0, ok=ids[c] in str(e))
+                ev("Complete", c=c, kind="cancelled", n=0, ok=str(ids[c]) in str(e))
             except (RetryableError, NonRetryableError) as e:
                 n = 0
                 txt = str(e)
@@ -355,6 +379,10 @@ def schedule_from_path(path, unit=0.25, rng=None):
             "idshape": rng.choice(ID_SHAPES),
             "params": rng.choice(PARAM_SHAPES),
         }
+    cs = sorted(callers)
+    if len(cs) >= 2 and rng.random() < 0.4:
+        callers[cs[0]]["idshape"] = rng.choice(["digits", "int"])
+        callers[cs[1]]["idshape"] = "twin:" + cs[0]
     steps = []
     fired_at = None
     started = set()
@@ -367,6 +395,8 @@ def schedule_from_path(path, unit=0.25, rng=None):
             if a == "Arrive":
                 s["k"] = h["k"]
                 s["id"] = h["id"]
+                if h["id"] == "other" and h["k"] in ("resp", "err", "sreq") and path["cfg"] and rng.random() < 0.5:
+                    s["twin"] = rng.choice(sorted(path["cfg"]))
                 if h["k"] == "prog":
                     s["fields"] = rng.choice(["all", "all", "some", "none"])
                 if h["k"] == "err":
@@ -403,6 +433,11 @@ def random_schedule(rng, ncallers=1, max_arr=12, flood=False, cancel=True, progr
             "idshape": rng.choice(ID_SHAPES),
             "params": rng.choice(PARAM_SHAPES),
         }
+        if len(names) > 1 and c == names[1] and rng.random() < 0.4:
+            first = callers[names[0]]
+            if first["idshape"] not in ("digits", "int"):
+                first["idshape"] = rng.choice(["digits", "int"])
+            callers[c]["idshape"] = "twin:" + names[0]
         t0 = rng.choice([0, 0, 0, 0.01, 0.2, 0.25, 0.5])
         steps.append({"a": "Start", "c": c, "t": t0})
         callers[c]["t0"] = t0
@@ -420,6 +455,8 @@ def random_schedule(rng, ncallers=1, max_arr=12, flood=False, cancel=True, progr
         if ncallers > 1 and k in ("resp", "err", "sreq", "prog") and s["id"] in callers and t < callers[s["id"]]["t0"]:
             s["t"] = callers[s["id"]]["t0"]
             s["tie"] = "after"
+        if s["id"] == "other" and k in ("resp", "err", "sreq") and rng.random() < 0.6:
+            s["twin"] = rng.choice(names)
         if k == "prog":
             s["fields"] = rng.choice(["all", "all", "some", "none"])
         if k == "err":
